@@ -15,6 +15,13 @@
 //!   kind 5  the rogue peer of kind 1 over loopback TCP (multistream-select, Noise, and the yamux
 //!           negotiation in transport mode) against a victim's negotiate_connection that dials
 //!           {none, the rogue's identity, another identity, the key in the payload}.
+//!   kind 6  two complete Litep2p nodes through the public API (TCP, WebSocket; QUIC in harness_c01x),
+//!           right / wrong peer id dialed;
+//!   kind 9  the real TransportManager over a scripted transport: its own comparison of the reported
+//!           peer with the dialed one (behind every transport);
+//!   kinds 7, 8 (harness_c01x only, tools/c01_extra_streams.sh, run by ./check in both tiers): the TLS
+//!           certificate verifier of the QUIC transport on crafted extension lists, and the WebRTC
+//!           Noise path (with_prologue / get_remote_peer_id) against a snow responder.
 //! A case line is `kind nparams params.. observed..`; only the parameters are read back on
 //! replay, everything observed is regenerated.
 use crate::util::*;
@@ -65,6 +72,9 @@ fn class(e: &NegotiationError) -> u64 {
         NegotiationError::PeerIdMismatch(_, _) => 8,
         NegotiationError::Timeout => 9,
         NegotiationError::MultistreamSelectError(_) => 11,
+        // QUIC: the verifier's refusal travels as the reason of a TLS transport error
+        #[cfg(feature = "extra")]
+        NegotiationError::Quic(e) if format!("{e:?}").contains("Wrong peer ID in p2p extension") => 8,
         _ => 10,
     }
 }
@@ -100,12 +110,15 @@ fn rand_bytes(rng: &mut Rng, n: usize) -> Vec<u8> {
     (0..n).map(|_| rng.below(256) as u8).collect()
 }
 
+/// The oracle tables are computed by an INDEPENDENT implementation (libp2p-identity 0.2.14, which
+/// calls ed25519-dalek itself), not through litep2p's `crypto::ed25519`: a change to
+/// `PublicKey::try_from_bytes` / `PublicKey::verify` in litep2p must not move the oracle with it.
 fn on_curve(k: &[u8]) -> bool {
-    ed25519::PublicKey::try_from_bytes(k).is_ok()
+    libp2p_identity::ed25519::PublicKey::try_from_bytes(k).is_ok()
 }
 
 fn ed_verify(pk: &[u8], msg: &[u8], sig: &[u8]) -> bool {
-    match ed25519::PublicKey::try_from_bytes(pk) {
+    match libp2p_identity::ed25519::PublicKey::try_from_bytes(pk) {
         Ok(p) => p.verify(msg, sig),
         Err(_) => false,
     }
@@ -278,6 +291,8 @@ struct Session {
     results: Vec<Option<HsResult>>,
     frames: [Vec<u8>; 3], // as sent: message 1, 2, 3 (empty = never sent)
     delivered: [Vec<u8>; 2],
+    early_written: Vec<u8>,   // what the dialer's application wrote right after its handshake
+    early_delivered: Vec<u8>, // what the listener's application could read
 }
 
 #[derive(Clone, Copy)]
@@ -385,16 +400,44 @@ fn run_session(
     frag: u64,
     foreign: &[Vec<u8>; 3],
     rng: &mut Rng,
+    early: usize,
 ) -> Session {
+    use futures::{AsyncReadExt, AsyncWriteExt};
     let net = Rc::new(RefCell::new(Net::default()));
+    let early_data: Vec<u8> = (0..early).map(|i| (i * 7 + 3) as u8).collect();
+    let written: Rc<RefCell<Vec<u8>>> = Default::default();
+    let got: Rc<RefCell<Vec<u8>>> = Default::default();
     net.borrow_mut().dir[0].frag = frag_script(rng, frag);
     net.borrow_mut().dir[1].frag = frag_script(rng, frag);
     let e0 = End { side: 0, net: net.clone() };
     let e1 = End { side: 1, net: net.clone() };
-    let futs: Vec<Option<HsFuture>> = vec![
-        Some(Box::pin(handshake(e0, kd, Role::Dialer, 5, 2, T, HandshakeTransport::Tcp))),
-        Some(Box::pin(handshake(e1, kl, Role::Listener, 5, 2, T, HandshakeTransport::Tcp))),
-    ];
+    // the dialer's application writes as soon as handshake() has returned (message 3 and the
+    // transport frames then reach the listener in one piece); the listener's application reads
+    // whatever its socket delivers
+    let (w2, g2, ed) = (written.clone(), got.clone(), early_data.clone());
+    let fut_d: HsFuture = Box::pin(async move {
+        let mut r = handshake(e0, kd, Role::Dialer, 5, 2, T, HandshakeTransport::Tcp).await;
+        if let (Ok((sock, _)), false) = (&mut r, ed.is_empty()) {
+            if sock.write_all(&ed).await.is_ok() && sock.flush().await.is_ok() {
+                *w2.borrow_mut() = ed.clone();
+            }
+        }
+        r
+    });
+    let fut_l: HsFuture = Box::pin(async move {
+        let mut r = handshake(e1, kl, Role::Listener, 5, 2, T, HandshakeTransport::Tcp).await;
+        if let (Ok((sock, _)), true) = (&mut r, early > 0) {
+            let mut buf = vec![0u8; 4096];
+            while g2.borrow().len() < early {
+                match sock.read(&mut buf).await {
+                    Ok(0) | Err(_) => break,
+                    Ok(n) => g2.borrow_mut().extend_from_slice(&buf[..n]),
+                }
+            }
+        }
+        r
+    });
+    let futs: Vec<Option<HsFuture>> = vec![Some(fut_d), Some(fut_l)];
     let mut frames: [Vec<u8>; 3] = Default::default();
     let mut fwd = [0usize; 2];
     let mut count = [0usize; 2];
@@ -428,17 +471,24 @@ fn run_session(
         }
     });
     let delivered = [net.borrow().dir[0].delivered.clone(), net.borrow().dir[1].delivered.clone()];
-    Session { results, frames, delivered }
+    let early_written = written.borrow().clone();
+    let early_delivered = got.borrow().clone();
+    Session { results, frames, delivered, early_written, early_delivered }
 }
 
 const NO_TAMPER: Tamper = Tamper { kind: 0, midx: 0, pos: 0, mask: 0 };
 
 fn run_kind2(rt: &tokio::runtime::Runtime, p: &[u64]) -> Option<(Vec<u64>, Vec<u64>)> {
-    if p.len() != 6 {
+    if p.len() != 6 && p.len() != 7 {
         return None;
     }
     let (seed, tkind, midx, pos, mask, frag) = (p[0], p[1], p[2], p[3], p[4], p[5]);
+    let early = p.get(6).copied().unwrap_or(0);
     if tkind > 12 || (tkind != 0 && !(1..=3).contains(&midx)) || pos > 70_000 || mask > 255 || frag > 70_000 {
+        return None;
+    }
+    // early data only with tampering that leaves nothing behind the damaged frame
+    if early > 200_000 || (early > 0 && [6, 8, 9].contains(&tkind)) {
         return None;
     }
     let mut rng = Rng::new(seed ^ 0xC01_0002);
@@ -448,11 +498,11 @@ fn run_kind2(rt: &tokio::runtime::Runtime, p: &[u64]) -> Option<(Vec<u64>, Vec<u
     if tkind == 4 || tkind == 5 {
         let fd = keypair_from(&mut rng);
         let fl = keypair_from(&mut rng);
-        let s = run_session(rt, &fd, &fl, NO_TAMPER, 0, &foreign, &mut rng);
+        let s = run_session(rt, &fd, &fl, NO_TAMPER, 0, &foreign, &mut rng, 0);
         foreign = s.frames;
     }
-    let s = run_session(rt, &kd, &kl, Tamper { kind: tkind, midx, pos, mask }, frag, &foreign, &mut rng);
-    let mut case = vec![2, 6];
+    let s = run_session(rt, &kd, &kl, Tamper { kind: tkind, midx, pos, mask }, frag, &foreign, &mut rng, early as usize);
+    let mut case = vec![2, p.len() as u64];
     case.extend_from_slice(p);
     el(&mut case, &kd.public().to_bytes());
     el(&mut case, &kl.public().to_bytes());
@@ -461,9 +511,11 @@ fn run_kind2(rt: &tokio::runtime::Runtime, p: &[u64]) -> Option<(Vec<u64>, Vec<u
     }
     el(&mut case, &s.delivered[0]);
     el(&mut case, &s.delivered[1]);
+    el(&mut case, &s.early_written);
     let mut trace = vec![2, !s.frames[1].is_empty() as u64, !s.frames[2].is_empty() as u64];
     put_result(&mut trace, &outcome(&s.results[0]));
     put_result(&mut trace, &outcome(&s.results[1]));
+    el(&mut trace, &s.early_delivered);
     Some((case, trace))
 }
 
@@ -602,6 +654,7 @@ struct Forge<'a> {
     a: &'a ed25519::Keypair,    // the rogue's identity
     b: &'a ed25519::Keypair,    // another identity
     victim_pk: [u8; 32],
+    rogue_is_listener: bool,
     replay: Vec<u8>,            // an honest payload of another session
 }
 
@@ -859,6 +912,25 @@ fn forge(fkind: u64, variant: u64, rng: &mut Rng, x: &Forge) -> (Vec<u8>, Vec<Ve
             payload_of(Some(&key_blob(1, &x.victim_pk)), Some(&good_sig))
         }
         21 => x.replay.clone(),
+        23 => {
+            // a valid identity padded with one unknown field to the largest Noise message
+            // (65535 bytes: message 2 = 32 + 48 + payload + 16, message 3 = 48 + payload + 16),
+            // one byte less, and a few kB less
+            let room = if x.rogue_is_listener { 65_535 - 32 - 48 - 16 } else { 65_535 - 48 - 16 };
+            let target = room - [0usize, 1, 2, 1000, 30_000][(variant % 5) as usize];
+            let base = payload_of(Some(&good_blob), Some(&good_sig));
+            let mut pad = target - base.len();
+            // field 7, length-delimited: 1 byte key + 3 bytes length
+            pad -= 4;
+            let mut p = if variant % 2 == 0 { base.clone() } else { Vec::new() };
+            p.extend(field_key(7, 2));
+            p.extend(varint_pad(pad as u64, if pad < 16_384 { 1 } else { 0 }));
+            p.extend(std::iter::repeat(0xaa).take(pad));
+            if variant % 2 != 0 {
+                p.extend(base);
+            }
+            p
+        }
         _ => {
             // structure-aware random mixture
             let mut blob_parts: Vec<Vec<u8>> = Vec::new();
@@ -934,7 +1006,7 @@ fn honest_pair(rt: &tokio::runtime::Runtime, rng: &mut Rng, role: u64, frag: u64
     let kd = keypair_from(rng);
     let kl = keypair_from(rng);
     let foreign: [Vec<u8>; 3] = Default::default();
-    let s = run_session(rt, &kd, &kl, NO_TAMPER, frag, &foreign, rng);
+    let s = run_session(rt, &kd, &kl, NO_TAMPER, frag, &foreign, rng, 0);
     let other = 1 - role as usize;
     let (pb, rs) = match &s.results[other] {
         Some(Ok((sock, _))) => (sock.verif_local_payload(), sock.verif_local_static()),
@@ -944,7 +1016,7 @@ fn honest_pair(rt: &tokio::runtime::Runtime, rng: &mut Rng, role: u64, frag: u64
     (pb, rs, outcome(&s.results[role as usize]), vk)
 }
 
-const NKINDS: u64 = 23;
+const NKINDS: u64 = 24;
 
 const MS_NOISE: &[u8] = b"\x13/multistream/1.0.0\n\x07/noise\n";
 const MS_YAMUX: &[u8] = b"\x13/multistream/1.0.0\n\x0d/yamux/1.0.0\n";
@@ -1028,9 +1100,9 @@ fn run_kind1(rt: &tokio::runtime::Runtime, p: &[u64]) -> Option<(Vec<u64>, Vec<u
         let replay = if fkind == 21 { honest_pair(rt, &mut rng, variant % 2, 0).0 } else { Vec::new() };
         let builder = snow_builder();
         let kp = builder.generate_keypair().ok()?;
-        let x = Forge { rs: &kp.public, a: &ka, b: &kb, victim_pk: victim.public().to_bytes(), replay };
+        let x = Forge { rs: &kp.public, a: &ka, b: &kb, victim_pk: victim.public().to_bytes(), rogue_is_listener: role == 0, replay };
         let (payload, ks, ss) = forge(fkind, variant, &mut rng, &x);
-        if payload.len() > 65_000 {
+        if payload.len() > 65_471 {
             return None;
         }
         if let Some(dmode) = tcp {
@@ -1141,7 +1213,7 @@ fn run_kind1(rt: &tokio::runtime::Runtime, p: &[u64]) -> Option<(Vec<u64>, Vec<u
         }
     };
     match &pd {
-        None => trace.extend([0, 0, 0, 99]),
+        None => trace.extend([0, 0, 0, 0, 99]),
         Some((key, sig)) => {
             trace.push(1);
             opt(&mut trace, key);
@@ -1150,7 +1222,7 @@ fn run_kind1(rt: &tokio::runtime::Runtime, p: &[u64]) -> Option<(Vec<u64>, Vec<u
                 cand_sigs.push(s.clone());
             }
             match key {
-                None => trace.extend([0, 0]),
+                None => trace.extend([0, 0, 0]),
                 Some(kb) => {
                     match verif_decode_key_message(kb) {
                         None => trace.push(1),
@@ -1171,6 +1243,18 @@ fn run_kind1(rt: &tokio::runtime::Runtime, p: &[u64]) -> Option<(Vec<u64>, Vec<u
                         // only when the harness is built with its optional `rsa` feature (C18 aux stream)
                         #[cfg(feature = "rsa")]
                         Ok(RemotePublicKey::Rsa(_)) => trace.extend([1, 99]),
+                    }
+                    // the reference: libp2p-identity 0.2.14 on the same key blob
+                    match libp2p_identity::PublicKey::try_decode_protobuf(kb) {
+                        Ok(pk) => match pk.clone().try_into_ed25519() {
+                            Ok(ed) => {
+                                trace.extend([1, 0]);
+                                el(&mut trace, &ed.to_bytes());
+                                el(&mut trace, &pk.to_peer_id().to_bytes());
+                            }
+                            Err(_) => trace.extend([1, 2]),
+                        },
+                        Err(_) => trace.extend([1, 1]),
                     }
                 }
             }
@@ -1297,6 +1381,608 @@ fn run_kind4(rt: &tokio::runtime::Runtime, p: &[u64]) -> Option<(Vec<u64>, Vec<u
     Some((case, trace))
 }
 
+// ------------------------------------------------------------------ kind 6: public API end to end
+
+/// Two complete `Litep2p` nodes over TCP (transport 0) or WebSocket (1); the dialer dials the
+/// listener's address with the right (1) or a wrong (2) peer id in it. Observed: the dialer's
+/// ConnectionEstablished / DialFailure and whether the listener reports a connection.
+fn run_kind6(rt: &tokio::runtime::Runtime, p: &[u64]) -> Option<(Vec<u64>, Vec<u64>)> {
+    use litep2p::{
+        config::ConfigBuilder,
+        error::DialError,
+        transport::{tcp::config::Config as TcpConfig, websocket::config::Config as WsConfig},
+        Litep2p, Litep2pEvent,
+    };
+    use multiaddr::Protocol;
+    let max_transport = if cfg!(feature = "extra") { 2 } else { 1 };
+    if p.len() != 3 || p[1] > max_transport || !(1..=2).contains(&p[2]) {
+        return None;
+    }
+    let mut rng = Rng::new(p[0] ^ 0xC01_0006);
+    let kd = keypair_from(&mut rng);
+    let kl = keypair_from(&mut rng);
+    let other = keypair_from(&mut rng);
+    let id_of = |k: &ed25519::Keypair| PeerId::from_public_key(&litep2p::crypto::PublicKey::Ed25519(k.public()));
+    let expected = if p[2] == 1 { id_of(&kl) } else { id_of(&other) };
+    let transport = p[1];
+    let node = |k: &ed25519::Keypair| {
+        let b = ConfigBuilder::new().with_keypair(k.clone());
+        #[cfg(feature = "extra")]
+        if transport == 2 {
+            return Litep2p::new(
+                b.with_quic(litep2p::transport::quic::config::Config {
+                    listen_addresses: vec!["/ip4/127.0.0.1/udp/0/quic-v1".parse().unwrap()],
+                    ..Default::default()
+                })
+                .build(),
+            );
+        }
+        let b = if transport == 1 {
+            b.with_websocket(WsConfig {
+                listen_addresses: vec!["/ip4/127.0.0.1/tcp/0/ws".parse().unwrap()],
+                reuse_port: false,
+                ..Default::default()
+            })
+        } else {
+            b.with_tcp(TcpConfig {
+                listen_addresses: vec!["/ip4/127.0.0.1/tcp/0".parse().unwrap()],
+                reuse_port: false,
+                ..Default::default()
+            })
+        };
+        Litep2p::new(b.build())
+    };
+    let (rd, rl): (Result<PeerId, u64>, Result<PeerId, u64>) = rt.block_on(async {
+        let mut d = node(&kd).ok()?;
+        let mut l = node(&kl).ok()?;
+        let base: multiaddr::Multiaddr = l
+            .listen_addresses()
+            .next()?
+            .iter()
+            .filter(|x| !matches!(x, Protocol::P2p(_)))
+            .collect();
+        let addr = base.with(Protocol::P2p(multiaddr::PeerId::from_bytes(&expected.to_bytes()).ok()?));
+        if d.dial_address(addr).await.is_err() {
+            return Some((Err(10), Err(12)));
+        }
+        let mut rd: Option<Result<PeerId, u64>> = None;
+        let mut rl: Option<Result<PeerId, u64>> = None;
+        let deadline = tokio::time::sleep(Duration::from_secs(12));
+        tokio::pin!(deadline);
+        let mut grace: Option<std::pin::Pin<Box<tokio::time::Sleep>>> = None;
+        loop {
+            if rd.is_some() && (rl.is_some() || grace.is_none()) && grace.is_none() {
+                grace = Some(Box::pin(tokio::time::sleep(Duration::from_millis(150))));
+            }
+            if rd.is_some() && rl.is_some() {
+                break;
+            }
+            tokio::select! {
+                ev = d.next_event(), if rd.is_none() => match ev {
+                    Some(Litep2pEvent::ConnectionEstablished { peer, .. }) => rd = Some(Ok(peer)),
+                    Some(Litep2pEvent::DialFailure { error, .. }) => rd = Some(Err({ match error {
+                        DialError::NegotiationError(e) => class(&e),
+                        DialError::Timeout => 9,
+                        _ => 10,
+                    }})),
+                    Some(Litep2pEvent::ListDialFailures { errors }) => rd = Some(Err(match errors.first() {
+                        Some((_, DialError::NegotiationError(e))) => class(e),
+                        Some((_, DialError::Timeout)) => 9,
+                        _ => 10,
+                    })),
+                    Some(_) => {}
+                    None => rd = Some(Err(10)),
+                },
+                ev = l.next_event(), if rl.is_none() => {
+                    if let Some(Litep2pEvent::ConnectionEstablished { peer, .. }) = ev {
+                        rl = Some(Ok(peer));
+                    }
+                },
+                _ = async { grace.as_mut().unwrap().await }, if grace.is_some() => break,
+                _ = &mut deadline => break,
+            }
+        }
+        Some((rd.unwrap_or(Err(9)), rl.unwrap_or(Err(12))))
+    })?;
+    let mut case = vec![6, 3];
+    case.extend_from_slice(p);
+    el(&mut case, &kd.public().to_bytes());
+    el(&mut case, &kl.public().to_bytes());
+    case.push(1);
+    el(&mut case, &expected.to_bytes());
+    let mut trace = vec![6];
+    put_result(&mut trace, &rd);
+    put_result(&mut trace, &rl);
+    Some((case, trace))
+}
+
+// ------------------------------------------------------------------ kind 9: the manager's comparison
+// `9 3 seed transport mode`: the REAL TransportManager over a scripted transport installed as TCP (0),
+// WebSocket (1) or — harness_c01x only — QUIC (2). mode 0/1: dial_address(../p2p/<dialed>), then the
+// transport reports ConnectionEstablished for the dialed peer / for another peer under the dial's
+// connection id; mode 2: an inbound connection (nothing pending). Observed: does next() hand out
+// ConnectionEstablished (after transport.accept), or is the connection refused (transport.reject; in
+// a debug build the manager stops at debug_assert!(false) first — both are "refused").
+fn run_kind9(rt: &tokio::runtime::Runtime, p: &[u64]) -> Option<(Vec<u64>, Vec<u64>)> {
+    use litep2p::transport::verif::{SupportedTransport, TransportManagerBuilder, VerifCall, VerifManagerEvent};
+    let max_transport = if cfg!(feature = "extra") { 2 } else { 1 };
+    if p.len() != 3 || p[1] > max_transport || p[2] > 2 {
+        return None;
+    }
+    let (seed, transport, mode) = (p[0], p[1], p[2]);
+    let mut rng = Rng::new(seed ^ 0xC01_0009);
+    let id_of = |k: &ed25519::Keypair| PeerId::from_public_key(&litep2p::crypto::PublicKey::Ed25519(k.public()));
+    let dialed = id_of(&keypair_from(&mut rng));
+    let other = id_of(&keypair_from(&mut rng));
+    let reported = if mode == 1 { other } else { dialed };
+    let base = match transport {
+        0 => "/ip4/10.1.2.3/tcp/7001",
+        1 => "/ip4/10.1.2.3/tcp/7001/ws",
+        _ => "/ip4/10.1.2.3/udp/7001/quic-v1",
+    };
+    let addr: multiaddr::Multiaddr =
+        format!("{base}/p2p/{}", multiaddr::PeerId::from_bytes(&dialed.to_bytes()).ok()?).parse().ok()?;
+    let name = match transport {
+        0 => SupportedTransport::Tcp,
+        1 => SupportedTransport::WebSocket,
+        #[cfg(feature = "extra")]
+        _ => SupportedTransport::Quic,
+        #[cfg(not(feature = "extra"))]
+        _ => return None,
+    };
+    let guard = rt.enter();
+    let mut manager = TransportManagerBuilder::new().build();
+    let script = manager.verif_register_scripted_as(name);
+    let cid = if mode == 2 {
+        manager.verif_alloc_connection_id()
+    } else {
+        rt.block_on(manager.dial_address(addr.clone())).ok()?;
+        let _ = manager.verif_drain();
+        let calls = script.take_calls();
+        let cid = calls.iter().find_map(|c| if let VerifCall::Dial(c) = c { Some(*c) } else { None })?;
+        if manager.verif_pending_connections() != vec![(cid, dialed)] {
+            return None;
+        }
+        cid
+    };
+    script.inject_connection_established(reported, cid, addr, mode == 2);
+    let res = catch_unwind(AssertUnwindSafe(|| {
+        let mut evs = manager.verif_drain();
+        script.resolve_accept(cid, true);
+        evs.extend(manager.verif_drain());
+        evs
+    }));
+    drop(guard);
+    let calls = script.take_calls();
+    let r: Result<PeerId, u64> = match res {
+        Err(_) => Err(8),
+        Ok(evs) => {
+            let est = evs.iter().find_map(|e| match e {
+                VerifManagerEvent::ConnectionEstablished(peer, c, _) if *c == cid => Some(*peer),
+                _ => None,
+            });
+            match est {
+                Some(peer) if calls.contains(&VerifCall::Accept(cid)) => Ok(peer),
+                Some(_) => Err(10),
+                None if calls.contains(&VerifCall::Reject(cid)) => Err(8),
+                None => Err(10),
+            }
+        }
+    };
+    std::mem::forget(manager);
+    let mut case = vec![9, 3];
+    case.extend_from_slice(p);
+    if mode == 2 {
+        case.push(0);
+    } else {
+        case.push(1);
+        el(&mut case, &dialed.to_bytes());
+    }
+    el(&mut case, &reported.to_bytes());
+    let mut trace = vec![9];
+    put_result(&mut trace, &r);
+    Some((case, trace))
+}
+
+// ------------------------------------------------------------------ kinds 7, 8: other callers
+// Compiled only into harness_c01x (cargo features quic + webrtc of litep2p), run by
+// tools/c01_extra_streams.sh.
+
+#[cfg(feature = "extra")]
+mod extra {
+    use super::*;
+    use litep2p::{
+        crypto::{
+            verif_tls::{verif_check_client_cert, verif_check_server_cert, verif_generate_with_extensions, VERIF_P2P_SIGNING_PREFIX},
+            verif_webrtc_noise::NoiseContext,
+        },
+        transport::webrtc::verif::verif_noise_prologue,
+    };
+
+    fn tls_class(e: &str) -> u64 {
+        if e.contains("Wrong peer ID") {
+            8
+        } else if e.contains("InvalidCertificateEncoding") {
+            13
+        } else if e.contains("ExtensionValueInvalid") {
+            14
+        } else if e.contains("UnsupportedCriticalExtension") {
+            15
+        } else if e.contains("UnknownIssuer") {
+            5
+        } else {
+            10
+        }
+    }
+
+    /// One extension of a crafted certificate.
+    #[derive(Clone)]
+    enum X {
+        /// another OID, `critical` or not
+        Other(bool),
+        /// the libp2p OID with a content that is not a SignedKey
+        Raw(Vec<u8>),
+        /// the libp2p OID: SignedKey { key blob, signature }, marked critical or not
+        P2p(Vec<u8>, Vec<u8>, bool),
+    }
+
+    const OTHER_OIDS: [&[u64]; 3] = [&[1, 3, 6, 1, 4, 1, 53594, 1, 2], &[1, 2, 3, 4], &[1, 3, 6, 1, 4, 1, 53594, 2, 1]];
+
+    /// kind 7: `7 3 seed forgery variant`. A certificate is generated by litep2p's own code path
+    /// (rcgen, fresh P-256 certificate key) with the extensions chosen here, in this order, and
+    /// given to the real verifier as a server certificate (with an expected peer) and as a client
+    /// certificate.
+    pub fn run_kind7(p: &[u64]) -> Option<(Vec<u64>, Vec<u64>)> {
+        if p.len() != 3 || p[1] > 17 {
+            return None;
+        }
+        let (seed, fk, variant) = (p[0], p[1], p[2]);
+        let mut rng = Rng::new(seed ^ 0xC01_0007);
+        let ka = keypair_from(&mut rng);
+        let kb = keypair_from(&mut rng);
+        let pk_a = ka.public().to_bytes().to_vec();
+        let prefix = VERIF_P2P_SIGNING_PREFIX.to_vec();
+        // a SubjectPublicKeyInfo of ANOTHER certificate key (for "signature made for another key")
+        let (_, other_spki) = verif_generate_with_extensions(|_| Vec::new()).ok()?;
+        let mut keys: Vec<Vec<u8>> = vec![pk_a.clone(), kb.public().to_bytes().to_vec()];
+        let mut sigs: Vec<Vec<u8>> = Vec::new();
+        let mut inter = 0usize;
+        let mut exts: Vec<X> = Vec::new();
+        let mut r2 = rng.fork();
+        let mut r3 = rng.fork();
+        let (der, spki) = verif_generate_with_extensions(|spki| {
+            let good_msg = [&prefix[..], spki].concat();
+            let good_sig = ka.sign(&good_msg);
+            let good_blob = key_blob(1, &pk_a);
+            sigs.push(good_sig.clone());
+            let good = X::P2p(good_blob.clone(), good_sig.clone(), true);
+            let bad_key = X::P2p(key_blob(2, &pk_a), good_sig.clone(), true);
+            let malformed = X::Raw(vec![0x30, 0x03, 0x04, 0x01, 0x00]);
+            exts = match fk {
+                0 => vec![good],
+                1 => Vec::new(),
+                2 => {
+                    let s = kb.sign(&good_msg);
+                    sigs.push(s.clone());
+                    vec![X::P2p(good_blob, s, true)]
+                }
+                3 => {
+                    let s = ka.sign(&[&prefix[..], &other_spki[..]].concat());
+                    sigs.push(s.clone());
+                    vec![X::P2p(good_blob, s, true)]
+                }
+                4 => {
+                    let msg: Vec<u8> = match variant % 4 {
+                        0 => spki.to_vec(),
+                        1 => [VERIF_STATIC_KEY_DOMAIN.as_bytes(), spki].concat(),
+                        2 => [&prefix[..prefix.len() - 1], spki].concat(),
+                        _ => [&prefix[..], &spki[..spki.len() - 1]].concat(),
+                    };
+                    let s = ka.sign(&msg);
+                    sigs.push(s.clone());
+                    vec![X::P2p(good_blob, s, true)]
+                }
+                5 => {
+                    // non-canonical encodings of the key: the id must still be the key's
+                    let blob = match variant % 4 {
+                        0 => [ld(2, &pk_a), field_key(1, 0), varint(1)].concat(),
+                        1 => [good_blob.clone(), unknown_field(&mut r2, &[1, 2], 2)].concat(),
+                        2 => [varint_pad(8, 1), varint_pad(1, 2), varint_pad(18, 1), varint_pad(32, 3), pk_a.clone()].concat(),
+                        _ => key_blob((1 << 32) + 1, &pk_a),
+                    };
+                    vec![X::P2p(blob, good_sig, true)]
+                }
+                6 => {
+                    let tys = [0u64, 2, 3, 4, 1 << 32];
+                    vec![X::P2p(key_blob(tys[(variant % 5) as usize], &pk_a), good_sig, true)]
+                }
+                7 => {
+                    let n = [0usize, 31, 33, 64][(variant % 4) as usize];
+                    let mut d = pk_a.clone();
+                    d.resize(n, 9);
+                    vec![X::P2p(key_blob(1, &d), good_sig, true)]
+                }
+                8 => {
+                    let raw = match variant % 3 {
+                        0 => vec![0x30, 0x03, 0x04, 0x01, 0x00],
+                        1 => rand_bytes(&mut r2, 20),
+                        _ => Vec::new(),
+                    };
+                    vec![X::Raw(raw)]
+                }
+                9 => vec![good.clone(), X::P2p(good_blob, good_sig, false)],
+                10 => {
+                    inter = 1 + (variant % 2) as usize;
+                    vec![good]
+                }
+                11 => {
+                    let k = unhex(SMALL_ORDER[(variant % 8) as usize]);
+                    let mut s = unhex(SMALL_ORDER[0]);
+                    s.extend([0u8; 32]);
+                    keys.push(k.clone());
+                    sigs.push(s.clone());
+                    vec![X::P2p(key_blob(1, &k), s, true)]
+                }
+                12 => {
+                    let mut s = good_sig.clone();
+                    let i = r2.below(64) as usize;
+                    s[i] ^= 1 << r2.below(8);
+                    sigs.push(s.clone());
+                    vec![X::P2p(good_blob, s, true)]
+                }
+                // extensions the verifier must skip, around a good libp2p extension (critical or not)
+                13 => {
+                    let g = X::P2p(good_blob, good_sig, variant % 2 == 0);
+                    match (variant / 2) % 4 {
+                        0 => vec![X::Other(false), g],
+                        1 => vec![g, X::Other(false)],
+                        2 => vec![X::Other(false), X::Other(false), g, X::Other(false)],
+                        _ => vec![X::Other(false), g, X::Other(false), X::Other(false)],
+                    }
+                }
+                // a critical extension the verifier does not understand
+                14 => match variant % 5 {
+                    0 => vec![X::Other(true), good],
+                    1 => vec![good, X::Other(true)],
+                    2 => vec![X::Other(false), good, X::Other(false), X::Other(true)],
+                    3 => vec![X::Other(true)],
+                    _ => vec![X::Other(true), X::Other(true), good],
+                },
+                // two extensions with the libp2p OID: which error wins depends on the order
+                15 => match variant % 6 {
+                    0 => vec![bad_key, good],
+                    1 => vec![malformed, good],
+                    2 => vec![good, malformed],
+                    3 => vec![good, bad_key],
+                    4 => vec![good.clone(), X::Other(false), good],
+                    _ => vec![malformed.clone(), malformed],
+                },
+                // the first offending extension decides
+                16 => match variant % 6 {
+                    0 => vec![X::Other(true), malformed],
+                    1 => vec![malformed, X::Other(true)],
+                    2 => vec![bad_key, X::Other(true)],
+                    3 => vec![X::Other(true), bad_key],
+                    4 => vec![good.clone(), good, X::Other(true)],
+                    _ => vec![good, X::Other(true), X::Raw(Vec::new())],
+                },
+                // random lists
+                _ => {
+                    let n = r2.below(5);
+                    (0..n)
+                        .map(|_| match r2.below(8) {
+                            0 => X::Other(true),
+                            1 | 2 | 3 => X::Other(false),
+                            4 => malformed.clone(),
+                            5 => bad_key.clone(),
+                            _ => good.clone(),
+                        })
+                        .collect()
+                }
+            };
+            exts.iter()
+                .map(|x| match x {
+                    X::Other(critical) => {
+                        let oid = OTHER_OIDS[r3.below(3) as usize].to_vec();
+                        (Some(oid), None, rand_bytes(&mut r3, 1 + (variant % 7) as usize), *critical)
+                    }
+                    X::Raw(raw) => (None, None, raw.clone(), true),
+                    X::P2p(k, s, critical) => (None, Some((k.clone(), s.clone())), Vec::new(), *critical),
+                })
+                .collect()
+        })
+        .ok()?;
+        let expected = match variant % 3 {
+            0 => None,
+            1 => id_of_key_bytes(&pk_a),
+            _ => id_of_key_bytes(&kb.public().to_bytes()),
+        };
+        let rs = verif_check_server_cert(&der, inter, expected).map_err(|e| tls_class(&e));
+        let rc = verif_check_client_cert(&der, inter).map_err(|e| tls_class(&e));
+        let mut trace = vec![7];
+        put_result(&mut trace, &rs);
+        put_result(&mut trace, &rc);
+        trace.push(0);
+        // case
+        let mut case = vec![7, 3];
+        case.extend_from_slice(p);
+        case.push(exts.len() as u64);
+        for x in exts.iter() {
+            match x {
+                X::Other(critical) => case.push(*critical as u64),
+                X::Raw(_) => case.push(2),
+                X::P2p(k, s, _) => {
+                    case.push(3);
+                    el(&mut case, k);
+                    el(&mut case, s);
+                    // oracle tables over the extension's key data and signature
+                    if let Some((_, data)) = verif_decode_key_message(k) {
+                        keys.push(data);
+                    }
+                    sigs.push(s.clone());
+                }
+            }
+        }
+        el(&mut case, &spki);
+        case.push(inter as u64);
+        match expected {
+            None => case.push(0),
+            Some(id) => {
+                case.push(1);
+                el(&mut case, &id.to_bytes());
+            }
+        }
+        keys.sort();
+        keys.dedup();
+        sigs.sort();
+        sigs.dedup();
+        let msg = [&prefix[..], &spki[..]].concat();
+        let keys32: Vec<&Vec<u8>> = keys.iter().filter(|k| k.len() == 32).collect();
+        case.push(keys32.len() as u64);
+        for k in keys32.iter() {
+            el(&mut case, k);
+            case.push(on_curve(k) as u64);
+        }
+        let mut entries = Vec::new();
+        let mut n = 0u64;
+        for k in keys32.iter().filter(|k| on_curve(k)) {
+            for s in sigs.iter() {
+                el(&mut entries, k);
+                el(&mut entries, &msg);
+                el(&mut entries, s);
+                entries.push(ed_verify(k, &msg, s) as u64);
+                n += 1;
+            }
+        }
+        case.push(n);
+        case.extend(entries);
+        Some((case, trace))
+    }
+
+    /// kind 8: `8 5 seed forgery variant fpmode`. litep2p's WebRTC Noise path on byte vectors:
+    /// `NoiseContext::with_prologue` (initiator) with the prologue computed by litep2p from its
+    /// two fingerprints; the remote is a snow responder whose prologue is computed from ITS view
+    /// of the fingerprints (fpmode 0: the same pair; others: a differing pair).
+    pub fn run_kind8(rt: &tokio::runtime::Runtime, p: &[u64]) -> Option<(Vec<u64>, Vec<u64>)> {
+        if p.len() != 5 || p[1] == 0 || p[1] >= NKINDS || p[3] > 7 || p[4] > 6 {
+            return None;
+        }
+        let (seed, fkind, variant, fpmode, lenmode) = (p[0], p[1], p[2], p[3], p[4]);
+        let mut rng = Rng::new(seed ^ 0xC01_0008);
+        let victim = keypair_from(&mut rng);
+        let ka = keypair_from(&mut rng);
+        let kb = keypair_from(&mut rng);
+        let local_fp = rand_bytes(&mut rng, 32);
+        let remote_fp = rand_bytes(&mut rng, 32);
+        let pro_i = verif_noise_prologue(local_fp.clone(), remote_fp.clone());
+        // the remote's view: its local fingerprint is our remote one
+        let (mut their_local, mut their_remote) = (remote_fp.clone(), local_fp.clone());
+        match fpmode {
+            0 => {}
+            1 => their_local[rng.below(32) as usize] ^= 1 << rng.below(8),
+            2 => their_remote[rng.below(32) as usize] ^= 1 << rng.below(8),
+            3 => std::mem::swap(&mut their_local, &mut their_remote),
+            4 => their_remote = rand_bytes(&mut rng, 32),
+            5 => their_local.truncate(31),
+            _ => {}
+        }
+        // the remote (client) computes "libp2p-webrtc-noise:" ++ client fp ++ server fp
+        let pro_r = match fpmode {
+            6 => Vec::new(),                          // a remote that uses no prologue at all
+            7 => b"libp2p-webrtc-noise:".to_vec(),    // ... or only the prefix
+            _ => [b"libp2p-webrtc-noise:".as_slice(), &their_local, &their_remote].concat(),
+        };
+        let replay = if fkind == 21 { honest_pair(rt, &mut rng, variant % 2, 0).0 } else { Vec::new() };
+        let builder = snow_builder();
+        let kp = builder.generate_keypair().ok()?;
+        let x = Forge { rs: &kp.public, a: &ka, b: &kb, victim_pk: victim.public().to_bytes(), rogue_is_listener: true, replay };
+        let (payload, ks, ss) = forge(fkind, variant, &mut rng, &x);
+        if payload.len() > 60_000 {
+            return None;
+        }
+        let mut responder = builder.local_private_key(&kp.private).prologue(&pro_r).build_responder().ok()?;
+        let mut ctx = NoiseContext::with_prologue(&victim, pro_i.clone()).ok()?;
+        let m1 = ctx.first_message(Role::Dialer).ok()?;
+        let mut buf = vec![0u8; 70_000];
+        let mut out = vec![0u8; 70_000];
+        responder.read_message(&m1[2..], &mut buf).ok()?;
+        let n = responder.write_message(&payload, &mut out).ok()?;
+        // get_remote_peer_id takes the two-byte prefix only as the size of its output buffer and hands
+        // ALL the bytes behind it to snow: a prefix that does not match, bytes behind the message
+        let (prefix, extra, short): (usize, usize, bool) = match lenmode {
+            0 => (n, 0, false),
+            1 => (payload.len(), 0, false),                     // smaller than the message, enough for the payload
+            2 if !payload.is_empty() => (payload.len() - 1, 0, false), // one byte too small for the payload
+            3 => (65535, 0, false),
+            4 => (n, 1, false),                                 // a byte appended behind the message
+            5 => (n, 0, true),                                  // the reply cut to a single byte
+            6 => (0, 0, false),
+            _ => (n, 0, false),
+        };
+        let mut reply = vec![(prefix >> 8) as u8, (prefix & 0xff) as u8];
+        reply.extend_from_slice(&out[..n]);
+        reply.extend(std::iter::repeat(0x5a).take(extra));
+        if short {
+            reply.truncate(1);
+        }
+        let res = ctx.get_remote_peer_id(&reply).map_err(|e| class(&e));
+        let mut trace = vec![8];
+        put_result(&mut trace, &res);
+        trace.push(0);
+        let mut case = vec![8, 5];
+        case.extend_from_slice(p);
+        // finish_case appends payload, static key, tables; the prologues go in between
+        let (c2, t2) = finish_case(Vec::new(), trace, &payload, &kp.public, None, ks, ss, false);
+        // c2 = L payload, L rs, tables...: splice the prologues after the first two lists
+        let l1 = 1 + c2[0] as usize;
+        let l2 = 1 + c2[l1] as usize;
+        case.extend_from_slice(&c2[..l1 + l2]);
+        el(&mut case, &pro_i);
+        el(&mut case, &pro_r);
+        case.extend([short as u64, prefix as u64, extra as u64]);
+        case.extend_from_slice(&c2[l1 + l2..]);
+        Some((case, t2))
+    }
+
+    pub fn generate(rt: &tokio::runtime::Runtime, rng: &mut Rng, n: u64, run: &mut dyn FnMut(&[u64])) {
+        let _ = rt;
+        for fk in 0..=17u64 {
+            for v in 0..12u64 {
+                run(&[7, 3, 5000 + fk * 16 + v, fk, v]);
+            }
+        }
+        // two complete nodes over QUIC (right / wrong peer id dialed); the manager behind a scripted QUIC transport
+        for m in 1..=2u64 {
+            run(&[6, 3, 6900 + m, 2, m]);
+        }
+        for m in 0..3u64 {
+            run(&[9, 3, 6910 + m, 2, m]);
+        }
+        for fk in 1..NKINDS {
+            for fp in 0..8u64 {
+                run(&[8, 5, 6000 + fk * 8 + fp, fk, fp + fk, fp, 0]);
+            }
+            run(&[8, 5, 6500 + fk, fk, fk, 0, 0]);
+            for lm in 1..7u64 {
+                run(&[8, 5, 6600 + fk * 8 + lm, if lm % 2 == 0 { fk } else { 1 }, fk, 0, lm]);
+            }
+        }
+        for i in 0..n {
+            let seed = rng.next() >> 16;
+            if i % 100 == 99 {
+                run(&[6, 3, seed, 2, rng.range(1, 2)]);
+            } else if i % 50 == 25 {
+                run(&[9, 3, seed, 2, rng.below(3)]);
+            } else if i % 2 == 0 {
+                run(&[7, 3, seed, if rng.chance(30) { 17 } else { rng.below(18) }, rng.below(1 << 12)]);
+            } else {
+                let fk = if rng.chance(40) { 1 } else { 1 + rng.below(NKINDS - 1) };
+                run(&[8, 5, seed, fk, rng.below(1 << 12), if rng.chance(50) { 0 } else { rng.below(8) }, if rng.chance(70) { 0 } else { rng.below(7) }]);
+            }
+        }
+    }
+}
+
 // ------------------------------------------------------------------ driver
 
 fn run_case(rt: &tokio::runtime::Runtime, c: &[u64]) -> Option<(Vec<u64>, Vec<u64>)> {
@@ -1307,6 +1993,12 @@ fn run_case(rt: &tokio::runtime::Runtime, c: &[u64]) -> Option<(Vec<u64>, Vec<u6
         1 | 5 => run_kind1(rt, p),
         2 => run_kind2(rt, p),
         4 => run_kind4(rt, p),
+        6 => run_kind6(rt, p),
+        9 => run_kind9(rt, p),
+        #[cfg(feature = "extra")]
+        7 => extra::run_kind7(p),
+        #[cfg(feature = "extra")]
+        8 => extra::run_kind8(rt, p),
         _ => None,
     }
 }
@@ -1346,10 +2038,21 @@ fn exhaustive() -> Vec<Vec<u64>> {
 fn gen_case(rng: &mut Rng, i: u64, thorough: bool) -> Vec<u64> {
     let seed = rng.next() >> 16;
     let roll = rng.below(100);
-    if roll < 12 {
-        // honest sessions under random fragmentation
+    if roll < 2 && (thorough || i % 8 == 0) {
+        vec![6, 3, seed, rng.below(2), rng.range(1, 2)]
+    } else if roll < 3 {
+        vec![9, 3, seed, rng.below(2), rng.below(3)]
+    } else if roll < 12 {
+        // honest sessions under random fragmentation, half of them with early data
         let frag = rng.pick(&[0u64, 1, 2, 3, 7, 16, 31, 33, 100, 201, 1000]);
-        vec![2, 6, seed, 0, 0, 0, 0, frag]
+        let early = if rng.chance(50) {
+            0
+        } else if rng.chance(4) {
+            rng.pick(&[65_519u64, 65_520, 100_000])
+        } else {
+            rng.pick(&[1u64, 2, 17, 100, 1000, 4096])
+        };
+        vec![2, 7, seed, 0, 0, 0, 0, frag, early]
     } else if roll < 30 {
         // random tampering beyond the exhaustive sweep
         let m = rng.range(1, 3);
@@ -1366,7 +2069,8 @@ fn gen_case(rng: &mut Rng, i: u64, thorough: bool) -> Vec<u64> {
             7 => [2, m, rng.below(n), 0],
             _ => [3, m, rng.below(n - 2), 0],
         };
-        vec![2, 6, seed, t[0], t[1], t[2], t[3], frag]
+        let early = if [6, 8, 9].contains(&t[0]) || rng.chance(60) { 0 } else { rng.pick(&[1u64, 50, 5000]) };
+        vec![2, 7, seed, t[0], t[1], t[2], t[3], frag, early]
     } else if roll < 34 || (roll < 40 && thorough) {
         vec![4, 3, seed, rng.below(3), rng.below(3)]
     } else if roll < 50 {
@@ -1374,7 +2078,10 @@ fn gen_case(rng: &mut Rng, i: u64, thorough: bool) -> Vec<u64> {
         let fkind = if rng.chance(35) { 1 } else { 1 + (i + rng.below(3)) % (NKINDS - 1) };
         vec![5, 5, seed, rng.below(2), fkind, rng.below(1 << 16), rng.below(4)]
     } else {
-        let fkind = if rng.chance(6) { 0 } else { 1 + (i + rng.below(3)) % (NKINDS - 1) };
+        let mut fkind = if rng.chance(6) { 0 } else { 1 + (i + rng.below(3)) % (NKINDS - 1) };
+        if fkind == 23 && !rng.chance(15) {
+            fkind = 22;
+        }
         vec![1, 4, seed, rng.below(2), fkind, rng.below(1 << 16)]
     }
 }
@@ -1404,6 +2111,12 @@ pub fn main(args: &Args) {
     if args.str("replay").is_some() {
         return;
     }
+    #[cfg(feature = "extra")]
+    {
+        extra::generate(&rt, &mut rng, ncases, &mut |c| run(c, &mut out));
+        let _ = thorough;
+        return;
+    }
     // a few of each kind first (the in-Coq sample takes the head of the file)
     for i in 0..24u64 {
         let c = match i % 4 {
@@ -1415,7 +2128,7 @@ pub fn main(args: &Args) {
         run(&c, &mut out);
     }
     for k in 0..NKINDS {
-        for v in 0..16u64 {
+        for v in 0..(if k == 23 { 5u64 } else { 16 }) {
             for role in 0..2u64 {
                 run(&[1, 4, 9000 + k * 100 + v * 2 + role, role, k, v + (role << 3)], &mut out);
             }
@@ -1427,6 +2140,31 @@ pub fn main(args: &Args) {
     for k in 1..NKINDS {
         for d in 0..4u64 {
             run(&[5, 5, 8100 + k * 8 + d, d % 2, k, d + k, d], &mut out);
+        }
+    }
+    // public API end to end: TCP and WebSocket, right and wrong peer id dialed
+    for t in 0..2u64 {
+        for m in 1..=2u64 {
+            run(&[6, 3, 8300 + t * 2 + m, t, m], &mut out);
+        }
+    }
+    // the manager's own comparison behind a scripted transport (TCP, WebSocket)
+    for t in 0..2u64 {
+        for m in 0..3u64 {
+            run(&[9, 3, 8350 + t * 4 + m, t, m], &mut out);
+        }
+    }
+    // early data: the dialer's application writes right behind message 3
+    for (i, early) in [1u64, 100, 4096, 70_000].iter().enumerate() {
+        for (j, t) in [[0u64, 0, 0, 0], [1, 3, 60, 4], [1, 3, 0, 1], [3, 3, 100, 0], [4, 3, 0, 0], [10, 3, 0, 0], [1, 2, 90, 8], [7, 3, 0, 0], [12, 3, 100, 0]]
+            .iter()
+            .enumerate()
+        {
+            if *early > 10_000 && j > 2 {
+                continue;
+            }
+            let frag = [0u64, 1, 33][(i + j) % 3];
+            run(&[2, 7, 8400 + (i * 16 + j) as u64, t[0], t[1], t[2], t[3], frag, *early], &mut out);
         }
     }
     for c in exhaustive() {
